@@ -10,6 +10,14 @@ class Inst(dict):
 
 
 def inst(rule, key, verdict, fn=None, line=None, detail="", loc=None):
+    # convention: a message that starts with '?' says "the construct this rule talks about was not found in a shape it
+    # knows".  An instance whose messages are all of that kind is undecided, whatever verdict the rule computed.
+    if verdict == VIOLATION and detail:
+        parts = [x for x in detail.split("; ") if x]
+        if parts and all(x.startswith("?") for x in parts):
+            verdict = UNDECIDED
+    if detail and "?" in detail:
+        detail = "; ".join(x.lstrip("?") for x in detail.split("; "))
     d = Inst(rule=rule, key="%s:%s" % (rule, key), verdict=verdict, detail=detail)
     if fn is not None:
         d["fn"] = fn.npath
